@@ -1,4 +1,5 @@
 import Tapeverif.Lemmas.Codec
+import Tapeverif.Lemmas.RunInstr
 /-! # C10 — integer (and float bit-pattern) encodings are exact inverses
 
 Property theorems only; helper lemmas are in `Lemmas/Codec.lean`. -/
@@ -129,5 +130,183 @@ example : intToBytes 128 = [0x00, 0x80] := by decide
 example : intToBytes (-129) = [0xff, 0x7f] := by decide
 example : intToBytes (2^63 - 1) = [0x7f, 0xff, 0xff, 0xff, 0xff, 0xff, 0xff, 0xff] := by decide
 example : bytesToInt [0x00, 0x05] = some 5 ∧ (intToBytes 5).length ≤ 2 := by decide
+
+/-! ### "integer instructions compute exact results at any magnitude that fits the item limit"
+
+The instructions are executed symbolically on the VM model (big-step): operands are *any* items that
+decode to integers `a`, `b`, … (unbounded `Int`), the result item is the minimal encoding of the exact
+result, and by `decode_encode` it decodes back to exactly that result. The only resource hypothesis is
+that the result item fits `stack_max_item_size`. -/
+section instructions
+open Instr
+
+variable {T : UInt8 → Op} {L : Limits}
+
+/-- popping `n` integer items: the continuation receives the fold of the decoded values -/
+theorem foldInts_steps (f : Int → Int → Int) (fr : Frame) : ∀ (n : Nat) (acc : Int) (k : Int → Op) (sh : Shared)
+    (bs : List Bytes) (zs : List Int) (st : List Bytes) (r : Res),
+    bs.length = n → bs.map bytesToInt = zs.map some → sh.stack = bs ++ st →
+    Steps T L (k (zs.foldl f acc)) fr { sh with stack := st } r →
+    Steps T L (foldInts f n acc k) fr sh r := by
+  intro n
+  induction n with
+  | zero =>
+    intro acc k sh bs zs st r hl hf hs h
+    have hb : bs = [] := by cases bs <;> simp_all
+    subst hb
+    have hz : zs = [] := by cases zs <;> simp_all
+    subst hz
+    simp only [List.nil_append] at hs
+    have hsh : ({ sh with stack := st } : Shared) = sh := by cases sh; simp_all
+    rw [hsh] at h
+    simpa [foldInts] using h
+  | succ n ih =>
+    intro acc k sh bs zs st r hl hf hs h
+    cases bs with
+    | nil => simp at hl
+    | cons b bs' =>
+      cases zs with
+      | nil => simp at hf
+      | cons z zs' =>
+        simp only [List.map_cons, List.cons.injEq] at hf
+        unfold foldInts popInt
+        refine Steps.pop b (bs' ++ st) (by simpa using hs) ?_
+        rw [hf.1]
+        dsimp only
+        exact ih (f acc z) k _ bs' zs' st r (by simpa using hl) hf.2 rfl (by simpa using h)
+
+/-- **`OP_ADD_INTS n` is exact**: it replaces the `n` top items, which decode to `zs`, by the minimal
+    encoding of their (unbounded) sum — which by `decode_encode` decodes back to exactly that sum. -/
+theorem addInts_exact (k : Op) (fr : Frame) (sh : Shared) (n : Nat) (rest : Bytes) (bs : List Bytes) (zs : List Int)
+    (st : List Bytes) (r : Res) (hn : n < 256) (hrest : fr.rest = UInt8.ofNat n :: rest)
+    (hl : bs.length = n) (hf : bs.map bytesToInt = zs.map some) (hs : sh.stack = bs ++ st)
+    (hsz : (intToBytes (zs.foldl (· + ·) 0)).length ≤ L.maxItemSize) (hroom : st.length < L.maxItems)
+    (h : Steps T L k { fr with rest := rest } { sh with stack := intToBytes (zs.foldl (· + ·) 0) :: st } r) :
+    Steps T L (opAddInts k) fr sh r := by
+  unfold opAddInts readU1
+  refine Steps.read (by simp [hrest]) ?_
+  simp only [hrest, List.take_succ_cons, List.take_zero, List.drop_succ_cons, List.drop_zero, u1_of_nat _ hn]
+  refine foldInts_steps _ _ n 0 _ sh bs zs st r hl hf hs ?_
+  unfold Instr.pushInt
+  exact Steps.push hsz (by simpa using hroom) h
+
+theorem sum_decodes (zs : List Int) : bytesToInt (intToBytes (zs.foldl (· + ·) 0)) = some (zs.foldl (· + ·) 0) := decode_encode _
+
+/-- **`OP_SUBTRACT_INTS n`**: the top item minus the following `n − 1` items, exactly -/
+theorem subInts_exact (k : Op) (fr : Frame) (sh : Shared) (n : Nat) (rest : Bytes) (b0 : Bytes) (z0 : Int) (bs : List Bytes) (zs : List Int)
+    (st : List Bytes) (r : Res) (hn : n < 256) (hrest : fr.rest = UInt8.ofNat n :: rest)
+    (hb0 : bytesToInt b0 = some z0) (hl : bs.length = n - 1) (hf : bs.map bytesToInt = zs.map some)
+    (hs : sh.stack = b0 :: (bs ++ st))
+    (hsz : (intToBytes (zs.foldl (· - ·) z0)).length ≤ L.maxItemSize) (hroom : st.length < L.maxItems)
+    (h : Steps T L k { fr with rest := rest } { sh with stack := intToBytes (zs.foldl (· - ·) z0) :: st } r) :
+    Steps T L (opSubInts k) fr sh r := by
+  unfold opSubInts readU1
+  refine Steps.read (by simp [hrest]) ?_
+  simp only [hrest, List.take_succ_cons, List.take_zero, List.drop_succ_cons, List.drop_zero, u1_of_nat _ hn]
+  unfold popInt
+  refine Steps.pop b0 (bs ++ st) hs ?_
+  rw [hb0]
+  dsimp only
+  refine foldInts_steps _ _ (n - 1) z0 _ _ bs zs st r hl hf rfl ?_
+  unfold Instr.pushInt
+  exact Steps.push hsz (by simpa using hroom) (by simpa using h)
+
+/-- **`OP_MULT_INTS n`**: the product, exactly -/
+theorem multInts_exact (k : Op) (fr : Frame) (sh : Shared) (n : Nat) (rest : Bytes) (b0 : Bytes) (z0 : Int) (bs : List Bytes) (zs : List Int)
+    (st : List Bytes) (r : Res) (hn : n < 256) (hrest : fr.rest = UInt8.ofNat n :: rest)
+    (hb0 : bytesToInt b0 = some z0) (hl : bs.length = n - 1) (hf : bs.map bytesToInt = zs.map some)
+    (hs : sh.stack = b0 :: (bs ++ st))
+    (hsz : (intToBytes (zs.foldl (· * ·) z0)).length ≤ L.maxItemSize) (hroom : st.length < L.maxItems)
+    (h : Steps T L k { fr with rest := rest } { sh with stack := intToBytes (zs.foldl (· * ·) z0) :: st } r) :
+    Steps T L (opMultInts k) fr sh r := by
+  unfold opMultInts readU1
+  refine Steps.read (by simp [hrest]) ?_
+  simp only [hrest, List.take_succ_cons, List.take_zero, List.drop_succ_cons, List.drop_zero, u1_of_nat _ hn]
+  unfold popInt
+  refine Steps.pop b0 (bs ++ st) hs ?_
+  rw [hb0]
+  dsimp only
+  refine foldInts_steps _ _ (n - 1) z0 _ _ bs zs st r hl hf rfl ?_
+  unfold Instr.pushInt
+  exact Steps.push hsz (by simpa using hroom) (by simpa using h)
+
+/-- **`OP_DIV_INTS` / `OP_MOD_INTS`**: floor division and its remainder on the decoded (unbounded)
+    integers — top item divided by the second — or `ZeroDivisionError` when the divisor is 0 -/
+theorem divInts_exact (k : Op) (fr : Frame) (sh : Shared) (ba bb : Bytes) (a b : Int) (st : List Bytes) (r : Res)
+    (ha : bytesToInt ba = some a) (hb : bytesToInt bb = some b) (hs : sh.stack = ba :: bb :: st) (hb0 : b ≠ 0)
+    (hsz : (intToBytes (Int.fdiv a b)).length ≤ L.maxItemSize) (hroom : st.length < L.maxItems)
+    (h : Steps T L k fr { sh with stack := intToBytes (Int.fdiv a b) :: st } r) :
+    Steps T L (opDivInts k) fr sh r := by
+  unfold opDivInts popInt
+  refine Steps.pop ba (bb :: st) hs ?_
+  rw [ha]; dsimp only
+  refine Steps.pop bb st rfl ?_
+  rw [hb]; dsimp only
+  unfold divOrFail
+  rw [if_neg hb0]
+  unfold Instr.pushInt
+  exact Steps.push hsz (by simpa using hroom) (by simpa using h)
+
+theorem divInts_zero (k : Op) (fr : Frame) (sh : Shared) (ba bb : Bytes) (a : Int) (st : List Bytes)
+    (ha : bytesToInt ba = some a) (hb : bytesToInt bb = some 0) (hs : sh.stack = ba :: bb :: st) :
+    Steps T L (opDivInts k) fr sh (.err (.user .zeroDiv) { sh with stack := st }) := by
+  unfold opDivInts popInt
+  refine Steps.pop ba (bb :: st) hs ?_
+  rw [ha]; dsimp only
+  refine Steps.pop bb st rfl ?_
+  rw [hb]; dsimp only
+  unfold divOrFail
+  rw [if_pos rfl]
+  exact Steps.fail _ _ _
+
+theorem modInts_exact (k : Op) (fr : Frame) (sh : Shared) (ba bb : Bytes) (a b : Int) (st : List Bytes) (r : Res)
+    (ha : bytesToInt ba = some a) (hb : bytesToInt bb = some b) (hs : sh.stack = ba :: bb :: st) (hb0 : b ≠ 0)
+    (hsz : (intToBytes (Int.fmod a b)).length ≤ L.maxItemSize) (hroom : st.length < L.maxItems)
+    (h : Steps T L k fr { sh with stack := intToBytes (Int.fmod a b) :: st } r) :
+    Steps T L (opModInts k) fr sh r := by
+  unfold opModInts popInt
+  refine Steps.pop ba (bb :: st) hs ?_
+  rw [ha]; dsimp only
+  refine Steps.pop bb st rfl ?_
+  rw [hb]; dsimp only
+  unfold divOrFail
+  rw [if_neg hb0]
+  unfold Instr.pushInt
+  exact Steps.push hsz (by simpa using hroom) (by simpa using h)
+
+/-- **`OP_LESS` / `OP_LESS_OR_EQUAL`** compare the decoded integers: top item `<` / `≤` second item -/
+theorem less_exact (k : Op) (fr : Frame) (sh : Shared) (ba bb : Bytes) (a b : Int) (st : List Bytes) (r : Res)
+    (ha : bytesToInt ba = some a) (hb : bytesToInt bb = some b) (hs : sh.stack = ba :: bb :: st)
+    (h1 : 1 ≤ L.maxItemSize) (hroom : st.length < L.maxItems)
+    (h : Steps T L k fr { sh with stack := boolBytes (decide (a < b)) :: st } r) :
+    Steps T L (opLess k) fr sh r := by
+  unfold opLess popInt
+  refine Steps.pop ba (bb :: st) hs ?_
+  rw [ha]; dsimp only
+  refine Steps.pop bb st rfl ?_
+  rw [hb]; dsimp only
+  unfold pushBool
+  exact Steps.push (by cases (decide (a < b)) <;> simp [boolBytes] <;> omega) (by simpa using hroom) (by simpa using h)
+
+theorem leq_exact (k : Op) (fr : Frame) (sh : Shared) (ba bb : Bytes) (a b : Int) (st : List Bytes) (r : Res)
+    (ha : bytesToInt ba = some a) (hb : bytesToInt bb = some b) (hs : sh.stack = ba :: bb :: st)
+    (h1 : 1 ≤ L.maxItemSize) (hroom : st.length < L.maxItems)
+    (h : Steps T L k fr { sh with stack := boolBytes (decide (a ≤ b)) :: st } r) :
+    Steps T L (opLeq k) fr sh r := by
+  unfold opLeq popInt
+  refine Steps.pop ba (bb :: st) hs ?_
+  rw [ha]; dsimp only
+  refine Steps.pop bb st rfl ?_
+  rw [hb]; dsimp only
+  unfold pushBool
+  exact Steps.push (by cases (decide (a ≤ b)) <;> simp [boolBytes] <;> omega) (by simpa using hroom) (by simpa using h)
+
+/-- Python's `//` and `%` are floor division: the identity `a = (a // b)·b + a % b` and the sign
+    of the remainder follow the divisor (stated for the model's `Int.fdiv` / `Int.fmod`) -/
+theorem fdiv_fmod (a b : Int) : Int.fdiv a b * b + Int.fmod a b = a := by
+  rw [Int.mul_comm]; exact Int.mul_fdiv_add_fmod a b
+
+
+end instructions
 
 end TV.C10
